@@ -175,7 +175,7 @@ func tailStr(s string, n int) string {
 
 // ---------------------------------------------------------------- plan
 
-func plan(tier string, seed int64) []run.Batch {
+func planBase(tier string, seed int64) []run.Batch {
 	// Build the production-tag probe once, before any child needs it (children
 	// fall back to building it themselves, e.g. in a replay).
 	if _, err := ensureProd(); err != nil {
@@ -253,7 +253,7 @@ func atOffsets(seed int64) []uint32 {
 	return append(out, highOffsets[0])
 }
 
-func child(b run.Batch, r *ev.Result) {
+func childBase(b run.Batch, r *ev.Result) {
 	switch b.Kind {
 	case "startup-long":
 		childStartupLong(b, r)
